@@ -7,6 +7,8 @@ from ..runner import Stream
 ID = "C12"
 AREAS = ["help"]
 RULE = ("random command trees (depth <= 3) mixing short-only / long-only / short+long flags, Count flags, options with "
+        "env variables (set / unset / empty, hide_env, hide_env_values), default values (with whitespace, quotes, backslashes; "
+        "hide_default_value), visible and hidden aliases / short aliases, global flags and options inherited by the subcommand levels, "
         "0..2 value names and ranges, positionals (required prefix, optional tail, multi-valued last), help / long_help "
         "of 0..14 words, custom headings, explicit (colliding) display orders, hide / hide_short_help / hide_long_help / "
         "next_line_help, possible values with help and hidden values, hidden subcommands, flag subcommands, the four "
@@ -22,7 +24,8 @@ TRUSTED = [
 ]
 ASSUMPTIONS = [
     "64-bit usize; plain styles; default help template; no term-size detection (term_width is set explicitly)",
-    "domain of the model: no argument groups / requires / global args / defaults / env / visible aliases / flatten_help (the generators stay inside it)",
+    "domain of the model: no argument groups / requires / next_help_heading / subcommand_help_heading / subcommand visible aliases / flatten_help (the generators stay inside it); env, defaults, (short) aliases, possible values in spec_vals and global arguments are modelled",
+    "the help-level theorems on the parser model (C12_help_flag_*_level) quantify over chains of subcommand names/aliases directly followed by the help flag (class help_chain); their hypothesis long_help_at/short_help_at (the level's --help / -h is a value-less Help-action flag) is checked by computation on the example, not derived from the build",
     "C12_padding_safe assumes every rendered left column is at most 65 000 columns wide (observation N: core::fmt limits run-time widths to u16 on rustc >= 1.87)",
     "names are ASCII in generated cases (columns = characters = bytes)",
 ]
@@ -113,6 +116,9 @@ def gen_arg(rng, ctr, shorts, kind, opts):
         a["hide_short"] = a["hide_long"] = True
         it.append("(x-hide-short)")
         it.append("(x-hide-long)")
+    if kind in ("flag", "opt") and not opts.get("required") and rng.random() < opts.get("p_global", 0.0):
+        a["global"] = True
+        flags.append("global")
     if flags:
         # an existing (flags ..) item (reqeq) is merged
         prev = [x for x in it if x and x.startswith("(flags ")]
@@ -153,11 +159,56 @@ def gen_arg(rng, ctr, shorts, kind, opts):
         if rng.random() < 0.15:
             a["hide_pv"] = True
             it.append("(x-hide-pv)")
+    # what spec_vals prints besides the possible values: env, defaults, visible (short) aliases
+    p_spec = opts.get("p_spec", 1.0)
+    if rng.random() < 0.22 * p_spec:
+        a["env"] = "EV" + n + "z"
+        r = rng.random()
+        val = None if r < 0.35 else ("" if r < 0.45 else "ev" + n + "z" + "e" * rng.choice([0, 0, 5, 14]))
+        a["env_val"] = val
+        it.append("(env %s%s)" % (hexs(a["env"]), "" if val is None else " " + hexs(val)))
+        r = rng.random()
+        if r < 0.12:
+            a["hide_env"] = True
+            it.append("(x-hide-env)")
+        elif r < 0.3:
+            a["hide_env_values"] = True
+            it.append("(x-hide-env-values)")
+    if kind in ("opt", "pos") and rng.random() < 0.3 * p_spec:
+        vis_pv = [pv["name"] for pv in a.get("pvs", []) if not pv.get("hide")]
+        multi = a["action"] == "append" or ((a.get("num") or (1, 1))[1] or 99) > 1
+        k = rng.choice([1, 1, 1, 2, 3]) if multi else 1
+        if a.get("pvs"):
+            dv = [rng.choice(vis_pv) for _ in range(k)] if vis_pv else []
+        else:
+            dv = ["dv" + n + "z" + "abc"[j] + rng.choice(["", "", "", " w", "\t", " \"q", "d" * 11, " \\ x"]) for j in range(k)]
+        if dv:
+            a["defaults"] = dv
+            it.append("(default %s)" % " ".join(hexs(v) for v in dv))
+            if rng.random() < 0.2:
+                a["hide_default"] = True
+                it.append("(x-hide-default)")
+    elif kind == "flag" and a["action"] in ("settrue", "setfalse") and rng.random() < 0.06 * p_spec:
+        a["defaults"] = [rng.choice(["true", "false"])]
+        it.append("(default %s)" % hexs(a["defaults"][0]))
+    if "long" in a and rng.random() < 0.25 * p_spec:
+        a["aliases"] = []
+        for j in range(rng.choice([1, 1, 2, 3])):
+            al = ("al" + n + "z" + "abc"[j] + "r" * rng.choice([0, 0, 3, 10]), rng.random() < 0.6)
+            a["aliases"].append(al)
+            it.append("(alias %s%s)" % (hexs(al[0]), " v" if al[1] else ""))
+    if kind in ("flag", "opt") and shorts and rng.random() < 0.15 * p_spec:
+        a["saliases"] = []
+        for j in range(rng.choice([1, 1, 2])):
+            if shorts:
+                al = (shorts.pop(rng.randrange(len(shorts))), rng.random() < 0.6)
+                a["saliases"].append(al)
+                it.append("(salias %d%s)" % (ord(al[0]), " v" if al[1] else ""))
     a["items"] = [x for x in it if x]
     return a
 
 
-def gen_cmd(rng, ctr, name, depth, prof):
+def gen_cmd(rng, ctr, name, depth, prof, reserved=()):
     n = ctr.next()
     c = {"name": name, "items": [], "args": [], "subs": []}
     it = c["items"]
@@ -179,7 +230,7 @@ def gen_cmd(rng, ctr, name, depth, prof):
     c["sets"] = sets
     if rng.random() < prof.get("p_cmd_next_line", 0.08):
         c["next_line"] = True
-    shorts = list(SHORT_POOL)
+    shorts = [x for x in SHORT_POOL if x not in reserved]   # shorts of inherited global args are taken
     nflag = rng.choice(prof.get("nflag", [0, 1, 1, 2, 3]))
     nopt = rng.choice(prof.get("nopt", [0, 1, 1, 2, 3]))
     npos = rng.choice(prof.get("npos", [0, 0, 1, 2, 3]))
@@ -212,11 +263,14 @@ def gen_cmd(rng, ctr, name, depth, prof):
         rest = iter(seq)
         allk = [x if x is not None else next(rest) for x in out]
     for k, o in allk:
+        o["p_global"] = prof.get("p_global", 0.18) if nsub else 0.0
         o["p_next_line"] = prof.get("p_next_line", 0.08)
         c["args"].append(gen_arg(rng, ctr, shorts, k, o))
+    reserved = tuple(reserved) + tuple(x for a in c["args"] if a.get("global")
+                                       for x in ([a["short"]] if "short" in a else []) + [al[0] for al in a.get("saliases", [])])
     for _ in range(nsub):
         sn = "sc" + ctr.next() + "z" + "n" * rng.choice([0, 0, 2, 9])
-        s = gen_cmd(rng, ctr, sn, depth - 1, prof)
+        s = gen_cmd(rng, ctr, sn, depth - 1, prof, reserved)
         if rng.random() < 0.2:
             s["hide"] = True
         if rng.random() < 0.12 and shorts:
@@ -229,7 +283,7 @@ def gen_cmd(rng, ctr, name, depth, prof):
         if rng.random() < prof.get("p_case_twin", 0.12):
             # a sibling whose name differs only in letter case and shares the (explicit) display order: a
             # case-folding sort key would make the two collide and one of them vanish from "Commands:"
-            t = gen_cmd(rng, ctr, sn.upper(), 0, prof)
+            t = gen_cmd(rng, ctr, sn.upper(), 0, prof, reserved)
             s["order"] = t["order"] = s.get("order", rng.choice([0, 1, 7]))
             c["subs"].append(t)
     return c
@@ -468,7 +522,7 @@ def dec_arg(l):
             a["num"] = (int(r[0]), None if r[1] == "inf" else int(r[1]))
         elif h == "flags":
             for f in r:
-                a[{"required": "required", "last": "last", "reqeq": "reqeq", "hide": "hide"}[f]] = True
+                a[{"required": "required", "last": "last", "reqeq": "reqeq", "hide": "hide", "global": "global"}[f]] = True
         elif h in ("help", "x-help"):
             a["help"] = s_(r[0])
         elif h == "x-long-help":
@@ -489,6 +543,21 @@ def dec_arg(l):
             a["order"] = int(r[0])
         elif h == "x-valname":
             a["valnames"] += [s_(x) for x in r]
+        elif h == "alias":
+            a.setdefault("aliases", []).append((s_(r[0]), len(r) > 1 and r[1] == "v"))
+        elif h == "salias":
+            a.setdefault("saliases", []).append((chr(int(r[0])), len(r) > 1 and r[1] == "v"))
+        elif h == "default":
+            a["defaults"] = [s_(x) for x in r]
+        elif h == "env":
+            a["env"] = s_(r[0])
+            a["env_val"] = s_(r[1]) if len(r) > 1 else None
+        elif h == "x-hide-env":
+            a["hide_env"] = True
+        elif h == "x-hide-env-values":
+            a["hide_env_values"] = True
+        elif h == "x-hide-default":
+            a["hide_default"] = True
         elif h == "x-pv":
             pv = {"name": s_(r[0])}
             for e in r[1:]:
@@ -580,6 +649,16 @@ def arg_markers_all(a):
         m.append(a["long_help"].split()[0])
     for pv in a["pvs"]:
         m.append(pv["name"])
+    # what spec_vals prints: env name and value, defaults, aliases (only marker-shaped ones are used)
+    if a.get("env"):
+        m.append(a["env"])
+        if a.get("env_val"):
+            m.append(a["env_val"])
+    for al, _vis in a.get("aliases", []):
+        m.append(al)
+    if not a["pvs"]:
+        for d in a.get("defaults", []):
+            m.append(d.split()[0] if d.split() else d)
     return m
 
 
@@ -637,7 +716,10 @@ def walk(cmd, path):
         nxt = [s for s in lv["subs"] if s["name"] == p]
         if not nxt:
             return None, inherited
-        lv = nxt[0]
+        # global arguments of the level above are arguments of this level too (unless it defines the id itself)
+        ids = set(a["id"] for a in nxt[0]["args"])
+        glob = [a for a in lv["args"] if a.get("global") and a["id"] not in ids]
+        lv = dict(nxt[0], args=nxt[0]["args"] + glob)
         inherited |= set(x for x in lv["sets"] if x.startswith("disable_"))
     return lv, inherited
 
@@ -733,6 +815,10 @@ def oracle(case, impl):
                 return "hidden possible value %s of %s appears" % (pv["name"], a["id"])
             if pv.get("hide") and pv.get("help") and MARKER.match(pv["help"]) and pv["help"].split()[0] in text:
                 return "help of hidden possible value %s of %s appears" % (pv["name"], a["id"])
+        # hidden (non-visible) aliases appear nowhere
+        for al, vis in a.get("aliases", []):
+            if not vis and MARKER.match(al) and al in text:
+                return "hidden alias %s of %s appears" % (al, a["id"])
     # -- subcommands
     for s in level["subs"]:
         if s.get("hide"):
@@ -820,7 +906,8 @@ def describe(cases, name):
     for k in ("short", "long", "usage", "flag-h", "flag-help", "sub-help"):
         d["which=" + k] = sum(1 for c in cases if "(which %s)" % k in c or "(which (%s" % k in c)
     for k in ("(action count)", "(x-heading", "(x-order", "(x-next-line)", "(x-hide-short)", "(x-hide-long)", "(x-pv",
-              "(x-hide-pv)", "hide", "disable_help_flag", "(sub ", "(short_flag", "(x-long-help", "reqeq", "last"):
+              "(x-hide-pv)", "hide", "disable_help_flag", "(sub ", "(short_flag", "(x-long-help", "reqeq", "last",
+              "global", "(env ", "(x-hide-env)", "(x-hide-env-values)", "(default ", "(x-hide-default)", "(alias ", " v)", "(salias "):
         d["has " + k] = sum(1 for c in cases if k in c)
     ws = [int(re.search(r"\(width (\d+)\)", c).group(1)) for c in cases if "(width" in c]
     d["widths distinct"] = len(set(ws))
@@ -867,16 +954,26 @@ def classify_known(stream, case, impl, failure):
     return None
 
 
-TECHNIQUE = "Coq proof (column arithmetic, visibility, section assembly of the help writer) + extracted-model/implementation correspondence"
+TECHNIQUE = ("Coq proof (column arithmetic, visibility, section assembly, spec_vals non-interference of the help writer; help-flag "
+             "dispatch along a subcommand chain on the parser model) + extracted-model/implementation correspondence")
 LEVEL_TEXT = ("Machine-checked theorems (Coq 8.16, closed under the global context) about a model of help_template.rs / "
               "usage.rs that mirrors the Rust functions one by one: every unsigned subtraction and run-time format width in "
               "write_args / align_to_about / help / subcmd succeeds for every command, every width and every display-width "
               "function, the padding is bounded independently of the width, every argument and subcommand that is visible in "
               "the rendered mode is a row of its section, hidden optional arguments / hidden subcommands / hidden possible "
-              "values contribute no row and no usage piece, and the help error raised at a level renders that level.  The "
+              "values contribute no row and no usage piece, and the help error raised at a level renders that level.  Round 2: "
+              "spec_vals is modelled in full (env, defaults, aliases, short aliases, quoted possible values) and compared token by token; "
+              "non-interference: two commands that differ only in hidden possible values, invisible aliases, hidden env / env values / "
+              "defaults render the same screen in every mode at every width; every row carries exactly spec_vals of its argument and every "
+              "visible possible value is listed; the usage line mentions every required positional; global arguments reach every "
+              "subcommand level; and on the parser model try_get_matches_from on `bin name_1 .. name_k (--help|-h) ..` (names/aliases of "
+              "nested subcommands, class help_chain) returns the DisplayHelp error of the level at the end of the chain.  The "
               "model is tied to clap_builder on every run by rendering generated command trees with the real crate at widths "
               "0..200 (debug and release) and comparing sections, rows, help columns and usage tokens with the extracted model; "
               "an independent python oracle written from the property text checks the rendered text itself.")
 LEVEL_NOTE = ("Trusted: Coq kernel, extraction, OCaml driver, Rust harness, generators; core::fmt, BTreeMap, f32 comparison "
               "(swept each run), textwrap (C20) and unicode-width are modelled or abstract; the model's domain excludes groups, "
-              "requires, global args, defaults/env/aliases in help, flatten_help, custom templates.")
+              "requires (usage forms <a|b>), next_help_heading / subcommand_help_heading, subcommand aliases in help, flatten_help, "
+              "custom templates, non-ASCII names.  Differential / oracle only: byte-exact layout and wrapped text, usage forms under "
+              "subcommand_negates_reqs / args_conflicts_with_subcommands, help chains with flags or values between the names.  "
+              "Observation (not a defect fix): a default value naming a hidden possible value is printed in [default: ..].")
